@@ -394,6 +394,13 @@ class ChartRun(object):
         return False
       if ld.deque.real_len() != 0 or ld.locking_queue._qsize() != 0:
         return False
+      fab = getattr(c, 'fabric', None)
+      if fab is not None:
+        if fab.fifo_fabric_queue._qsize() != 0 or fab.lifo_fabric_queue._qsize() != 0:
+          return False
+        for t in sim.threads:
+          if t.role in ('fabric.fifo', 'fabric.lifo') and t.state != kernel.DONE and not (t.state == kernel.BLOCKED and t.desc.startswith('get:')):
+            return False
       if writer._queue._qsize() != 0:
         return False
       wt = writer._thread
@@ -484,9 +491,11 @@ class ChartRun(object):
       for pre in sc.get('pre_start') or []:
         # requests made before start_at travel to the object's thread as meta events
         if pre[0] == 'subscribe':
-          c.subscribe(ev.Event(signal=pre[1]))
+          if hasattr(c, 'subscribe'):
+            c.subscribe(ev.Event(signal=pre[1]))
         elif pre[0] == 'publish':
-          c.publish(ev.Event(signal=pre[1]))
+          if hasattr(c, 'publish'):
+            c.publish(ev.Event(signal=pre[1]))
         elif pre[0] == 'defer':
           # an event is set aside before the chart is started
           c.defer(pre_events.pop(0))
@@ -538,6 +547,27 @@ class ChartRun(object):
           self.qm.post_fifo((e.payload, op[1]))
           pred = self._model_circuit()
           ob = self.do(op, f)
+      elif k == 'pub':
+        # the event comes through the publish/subscribe fabric: the object subscribed to the signal before it was
+        # started and publishes it itself (hosts without a fabric are simply posted the event)
+        e = self.new_event(op[1])
+        self.qm.post_fifo((e.payload, op[1]))
+        if is_ao:
+          def f():
+            c.publish(e)
+            self.await_idle()
+          pred = self._model_circuit()
+          ob = self.do(op, f)
+        elif host == 'queued':
+          def f():
+            c.post_fifo(e)
+            return c.next_rtc()
+          pred = self._model_rtc()
+          ob = self.do(op, f)
+        else:
+          self.qm.q.pop()
+          pred = self._model_dispatch(e.payload, op[1])
+          ob = self.do(op, lambda: c.dispatch(e))
       elif k == 'restart':
         # start_at called again on a chart that has been running: it starts over from the outside
         try:
